@@ -44,4 +44,5 @@ CONF = dict(
                  'authenticating client carries a valid client-direction authenticator, an accepted response does not carry a server-direction authenticator with a wrong MAC'),
     timeout_quick=900,
     timeout_thorough=3000,
+    min_cases={'cli': 90, 'cli.probe': 1, 'srv': 1001, 'srv.keyed': 75, 'srv.probe': 1},
 )
